@@ -346,6 +346,14 @@ class Gir:
             pat = e.get('pat', {})
             if pat.get('k') == 'p_bind' and t['op'] != 'empty':
                 ctx['env']['@' + pat['name']] = t
+            if 'else' in e and t['op'] != 'empty':
+                # `let Some(x) = opt(p).parse_next(input)? else { break }`: what follows runs iff the pattern matched, the else block otherwise
+                # (the same shape as `if let Some(x) = .. { } else { break }`)
+                b = self.stmt(e['else'], ctx)
+                r = T('seq', items=[t, T('alt', items=[T('empty'), b], l=l, stmtform=True)], out=None, l=l, stmtform=True)
+                if pat.get('k') == 'p_tuplestruct' and (pat.get('path') or '').endswith('Option::Some'):
+                    r['iflet'] = 'Some'
+                return r
             return t
         if k == 'semi':
             return self.stmt(e['e'], ctx)
